@@ -16,14 +16,6 @@ end
 /-- the filter rejects taxon-less nodes (every taxon-driven filter does) -/
 def NoneRej (acc : Acc) : Prop := ∀ i, acc i none = false
 
-mutual
-def ids : T → List Nat
-  | .node i _ _ _ cs => i :: idsL cs
-def idsL : List T → List Nat
-  | [] => []
-  | c :: cs => ids c ++ idsL cs
-end
-
 namespace Aux
 
 /-! ### suppression after restriction = restriction with merging -/
